@@ -557,8 +557,14 @@ func (w *world) checkSearch(name string, pattern M, inherited bool, when string)
 			return sc
 		}
 		if inherited {
-			if _, ok := w.ancestors(name); !ok {
+			order, ok := w.ancestors(name)
+			if !ok {
 				return sc // loops/unspecified parents/diamonds: an error is fine
+			}
+			for _, ln := range order {
+				if w.model[ln].locEnabled() != 1 {
+					return sc // a disabled location in the closure
+				}
 			}
 		}
 		w.o.Fail("SEARCH_ERROR", "%s: %s SearchFacts(%s) failed: %v", when, name, vlib.JSON(pattern), err)
@@ -571,6 +577,11 @@ func (w *world) checkSearch(name string, pattern M, inherited bool, when string)
 			return sc
 		}
 		locs = order
+	}
+	for _, ln := range locs {
+		if ln != name && w.model[ln].locEnabled() != 1 {
+			return sc // a disabled ancestor: not specified here
+		}
 	}
 	// expected: per location
 	exp := map[string]expMatch{}
@@ -739,11 +750,38 @@ func (w *world) checkEvent(name string, event M, when string) eventCmp {
 	dupIds := false
 	seenRule := map[string]bool{}
 	for _, ln := range order {
-		ml := w.model[ln]
-		if ml.locEnabled() != 1 {
-			ec.Unspec = true
-			return ec
+		if w.model[ln].locEnabled() == 1 {
+			continue
 		}
+		// An ancestor is disabled (or its flag is unspecified).  What
+		// the event does otherwise is not specified, but no rule of a
+		// disabled location may run.
+		ec.Unspec = true
+		if cond == nil && work != nil {
+			for _, child := range work.Children {
+				id := child.Rule.Id
+				for _, l2 := range order {
+					m2 := w.model[l2]
+					it, have := m2.Items[id]
+					if m2.locEnabled() == 0 && have && it.IsRule && m2.specified(id) {
+						elsewhere := false
+						for _, l3 := range order {
+							if _, also := w.model[l3].Items[id]; also && l3 != l2 {
+								elsewhere = true
+							}
+						}
+						if !elsewhere {
+							w.o.Fail("RULE_OF_DISABLED_LOCATION_RAN", "%s: %s ProcessEvent(%s) evaluated rule %q, which belongs to the disabled location %s",
+								when, name, vlib.JSON(event), id, l2)
+						}
+					}
+				}
+			}
+		}
+		return ec
+	}
+	for _, ln := range order {
+		ml := w.model[ln]
 		for _, it := range ml.Items {
 			if it.IsRule {
 				ec.Stored++
@@ -886,6 +924,11 @@ func (w *world) checkListRules(name string, inherited bool, when string) {
 			return
 		}
 		locs = order
+	}
+	for _, ln := range locs {
+		if w.model[ln].locEnabled() != 1 {
+			return // a disabled location in the closure: not specified here
+		}
 	}
 	got, err := w.locs[name].ListRules(newCtx(), inherited)
 	if err != nil {
